@@ -73,6 +73,11 @@ def run(ctx):
     ctx.check(not bad, "LANG-FIT", "sub-language codes within 6 bits", "", "sub-language codes outside 1..63: %s" % bad, loc)
     # constants in the code
     S = Sym(prog, f_tag)
+    keys = [S.val(t["args"][1]) for b, t in calls(prog, f_tag, r"binary_search")]
+    exact = sorted(k.lstrip("&") for k in keys) == sorted(["(*p1.code BitAnd c:%d)" % mask, "(*p1.code Shr c:%d)" % shift])
+    ctx.check(exact, "LANG-FIT", "tag() searches by exactly (code & LANG_MASK) and (code >> SUBLANG_SHIFT)", str(keys),
+              "tag() searches by %s; expected exactly code & %d and code >> %d (a further mask on the 6-bit sub-language aliases unknown sub-languages onto known ones)" % (keys, mask, shift),
+              f_tag.loc(), fn=f_tag.name, key="LANG-FIT|keys")
     txt = " ".join(S.val(a) for b, t in calls(prog, f_tag, r"binary_search") for a in t["args"])
     ctx.check(("BitAnd c:%d)" % mask) in txt, "LANG-FIT", "tag() masks the language with LANG_MASK", "", "tag() does not search the language by `code & %d`: %s" % (mask, txt[:200]), f_tag.loc(), fn=f_tag.name)
     ctx.check(("Shr c:%d)" % shift) in txt, "LANG-FIT", "tag() shifts the sub-language by SUBLANG_SHIFT", "", "tag() does not search the sub-language by `code >> %d`: %s" % (shift, txt[:200]), f_tag.loc(), fn=f_tag.name)
